@@ -8,6 +8,7 @@ import PytezosModel.Proofs.InterpSoundEval
   this is what "a well-typed stack" means for the rules MEM / GET / UPDATE, which apply to well-formed collections only.
 * canonical forms: a well-formed value of a given type has the corresponding shape. -/
 namespace Interp
+variable [Mode]
 open Typing
 
 /-- `r` is not stuck, not outside the guard, and a result of `r` satisfies `P` -/
